@@ -2984,6 +2984,7 @@ where
 
         for attempt in 0..=max_perturbation_attempts {
             stats.attempts = attempt + 1;
+            verif_tick!("insert/attempt");
 
             // Apply perturbation for retry attempts
             if attempt > 0 {
@@ -3449,6 +3450,12 @@ where
                 &validation_err,
             );
         }
+        verif_failpoint!(
+            "tri/insert/after_validate",
+            InsertionError::CavityFilling {
+                message: "verif: injected failure after post-insertion validation".to_string(),
+            }
+        );
 
         Ok((ok, cells_removed, suspicion))
     }
@@ -3469,6 +3476,7 @@ where
     where
         K::Scalar: CoordinateScalar,
     {
+        verif_tick!("insert/star_split_fallback");
         let point = *vertex.point();
         let location = locate(&self.tds, &self.kernel, &point, hint);
 
@@ -3845,6 +3853,7 @@ where
                 let mut iterations: usize = 0;
 
                 loop {
+                    verif_tick!("insert/cavity_reshape_iteration");
                     if iterations >= MAX_CAVITY_ITERATIONS {
                         break;
                     }
@@ -4022,6 +4031,12 @@ where
 
         // Fill cavity BEFORE removing old cells
         let new_cells = fill_cavity(&mut self.tds, v_key, &boundary_facets)?;
+        verif_failpoint!(
+            "tri/insert/after_fill_cavity",
+            InsertionError::CavityFilling {
+                message: "verif: injected failure after filling the cavity".to_string(),
+            }
+        );
         self.canonicalize_positive_orientation_for_cells(&new_cells)
             .map_err(|e| TdsValidationError::InconsistentDataStructure {
                 message: format!(
@@ -4039,8 +4054,20 @@ where
             Some(&conflict_cells),
         )?;
 
+        verif_failpoint!(
+            "tri/insert/after_wire",
+            InsertionError::NeighborWiring {
+                message: "verif: injected failure after wiring the cavity".to_string(),
+            }
+        );
         // Remove conflict cells (now that new cells are wired up)
         let _removed_count = self.tds.remove_cells_by_keys(&conflict_cells);
+        verif_failpoint!(
+            "tri/insert/after_remove_conflict",
+            InsertionError::CavityFilling {
+                message: "verif: injected failure after removing the conflict cells".to_string(),
+            }
+        );
 
         // Iteratively repair non-manifold topology until facet sharing is valid
         let mut total_removed = 0;
@@ -4146,6 +4173,12 @@ where
 
         // Canonicalize cell ordering and geometric orientation invariants.
         self.normalize_and_promote_positive_orientation()?;
+        verif_failpoint!(
+            "tri/insert/after_normalize",
+            InsertionError::CavityFilling {
+                message: "verif: injected failure after orientation normalisation".to_string(),
+            }
+        );
 
         // Assign an incident cell for the inserted vertex without a global rebuild.
         let hint = new_cells.iter().copied().find(|&ck| {
@@ -4246,6 +4279,12 @@ where
             .tds
             .insert_vertex_with_mapping(vertex)
             .map_err(TriangulationConstructionError::from)?;
+        verif_failpoint!(
+            "tri/insert/after_vertex",
+            InsertionError::CavityFilling {
+                message: "verif: injected failure after inserting the vertex".to_string(),
+            }
+        );
 
         // 2. Check if we need to bootstrap the initial simplex
         let num_vertices = self.tds.number_of_vertices();
@@ -4264,6 +4303,12 @@ where
 
             // Replace empty TDS with simplex TDS (preserve kernel)
             self.tds = new_tds;
+            verif_failpoint!(
+                "tri/insert/after_bootstrap",
+                InsertionError::CavityFilling {
+                    message: "verif: injected failure after building the initial simplex".to_string(),
+                }
+            );
 
             // Re-map vertex key to the rebuilt TDS
             v_key = self
@@ -4522,6 +4567,7 @@ where
                         "Outside insertion: proceeding to hull extension"
                     );
                 }
+                verif_tick!("insert/hull_extension");
                 let new_cells = match extend_hull(&mut self.tds, &self.kernel, v_key, &point) {
                     Ok(cells) => cells,
                     Err(err) => {
@@ -4873,6 +4919,12 @@ where
                 .map_err(|e| TdsValidationError::InconsistentDataStructure {
                     message: format!("Fan triangulation failed: {e}"),
                 })?;
+            verif_failpoint!(
+                "tri/remove/after_fan_fill",
+                TdsMutationError(TdsValidationError::InconsistentDataStructure {
+                    message: "verif: injected failure after fan fill".to_string(),
+                })
+            );
             self.canonicalize_positive_orientation_for_cells(&new_cells)
                 .map_err(|e| TdsValidationError::InconsistentDataStructure {
                     message: format!(
@@ -4899,7 +4951,19 @@ where
             // Remove the cells containing the vertex (now that new cells are wired up)
             // Note: remove_cells_by_keys() automatically clears neighbor pointers in surviving
             // cells that reference removed cells (sets them to None/boundary)
+            verif_failpoint!(
+                "tri/remove/after_wire",
+                TdsMutationError(TdsValidationError::InconsistentDataStructure {
+                    message: "verif: injected failure after wiring the fan".to_string(),
+                })
+            );
             let mut cells_removed = self.tds.remove_cells_by_keys(&cells_to_remove);
+            verif_failpoint!(
+                "tri/remove/after_remove_cells",
+                TdsMutationError(TdsValidationError::InconsistentDataStructure {
+                    message: "verif: injected failure after removing the star".to_string(),
+                })
+            );
 
             // Validate facet topology for newly created cells (O(k*D) localized check)
             if let Some(issues) = self.detect_local_facet_issues(&new_cells)? {
@@ -4945,9 +5009,21 @@ where
 
             // Rebuild vertex-cell incidence for all vertices
             self.tds.assign_incident_cells()?;
+            verif_failpoint!(
+                "tri/remove/after_incidence",
+                TdsMutationError(TdsValidationError::InconsistentDataStructure {
+                    message: "verif: injected failure after rebuilding incidence".to_string(),
+                })
+            );
 
             // Remove the vertex using Tds method (handles internal bookkeeping)
             self.tds.remove_vertex(vertex)?;
+            verif_failpoint!(
+                "tri/remove/after_vertex_removed",
+                TdsMutationError(TdsValidationError::InconsistentDataStructure {
+                    message: "verif: injected failure after removing the vertex".to_string(),
+                })
+            );
 
             Ok(cells_removed)
         })();
